@@ -331,7 +331,7 @@ Lemma geneq_VolMem_vs_copy_to : forall m h s t buf,
       (Impl.VolMem.vs_copy_to m h s t buf).
 Proof.
   intros. unfold Gen.Volatile.vs_copy_to, Impl.VolMem.vs_copy_to.
-  destruct (Impl.VolMem.ty_size t =? 1); [apply oeq_refl|].
+  destruct (Impl.VolMem.ty_size t =? 1); [dassert_discharge; apply oeq_refl|].
   destruct (Impl.VolMem.ty_size t =? 0); [apply oeq_refl|].
   unfold pdiv. destruct (Impl.VolMem.ty_size t =? 0); cbn [bind]; oeq_fin.
 Qed.
